@@ -461,6 +461,7 @@ func visitInstr(fr *frame, instr ssa.Instruction) continuation {
 		case array:
 			fr.env[instr] = x[asInt64(fr.symIndex(idx, len(x)))]
 		case string:
+			guardDec(x, "indexing")
 			fr.env[instr] = x[asInt64(fr.symIndex(idx, len(x)))]
 		default:
 			panic(fmt.Sprintf("unexpected x type in Index: %T", x))
